@@ -1,4 +1,4 @@
 SPECIFICATION Spec
-CONSTANTS MaxN = 12 MaxR = 2 MaxCellsM5 = 300 MlN = 8 MlR = 1 MlLow = 0 Families = {"geo", "ml"} Shrink = 0
+CONSTANTS MaxN = 10 MaxR = 2 MaxCellsM5 = 300 MlN = 8 MlR = 1 MlLow = 0 Families = {"geo", "ml"} Shrink = 0
 INVARIANTS InvM0 InvM1 InvM2 InvM3 InvM4 InvM5 InvF1 InvF2 InvF3 InvF4
 CHECK_DEADLOCK FALSE
